@@ -1,6 +1,7 @@
 package props
 
 import (
+	"encoding/json"
 	"encoding/base64"
 	"fmt"
 	"math"
@@ -59,6 +60,9 @@ func (s srcVal) goValue() (interface{}, bool) {
 	case "float32":
 		f, err := strconv.ParseFloat(s.Text, 32)
 		return float32(f), err == nil
+	case "json-number":
+		// what a JSON document read with UseNumber hands over
+		return json.Number(s.Text), true
 	}
 	b, ok := new(big.Int).SetString(s.Text, 10)
 	if !ok {
